@@ -636,6 +636,9 @@ Proof.
   - pose proof (tleafs_mono (S a) H L). rewrite tleafs_S in *. lia.
 Qed.
 
+Lemma tleafs_ge_height h : Z.of_nat h + 1 <= tleafs h.
+Proof. induction h as [|h IH]; [change (tleafs 0) with 1; lia|]. rewrite tleafs_S, Nat2Z.inj_succ. lia. Qed.
+
 Lemma ncount_tleafs a : ncount (tleafs a) = tsize a.
 Proof.
   unfold ncount. rewrite tsize_tleafs. rewrite tleafs_pow. rewrite count_ones_pow2. reflexivity.
@@ -679,14 +682,13 @@ Proof.
       assert (H = a) as ->.
       { apply (height_interval_unique H a (ncount (n - 1) + 1)); [exact Hr|].
         rewrite En. unfold ncount at 1 2. rewrite tleafs_pow, count_ones_ones, tsize_tleafs, tleafs_pow.
-        pose proof (tsize_ge_height a) as G. rewrite tsize_tleafs, tleafs_pow in G.
-        pose proof (pow2_pos (Z.of_nat a) ltac:(lia)). Show. lia. }
+        pose proof (tleafs_ge_height a) as G. rewrite tleafs_pow in G. lia. }
       rewrite En, ncount_tleafs. rewrite Z.gtb_ltb, Z.ltb_irrefl. auto.
     - assert (H = S a) as ->.
       { apply (height_interval_unique H (S a) (ncount (n - 1) + 1)); [exact Hr|].
         pose proof (ncount_mono (tleafs a) (n - 1) ltac:(lia)) as M. rewrite ncount_tleafs in M.
-        pose proof (ncount_lt_tsize (S a) n ltac:(rewrite tleafs_S; lia)).
-        rewrite tleafs_S, tsize_tleafs. rewrite tsize_tleafs in M. lia. }
+        pose proof (ncount_lt_tsize (S a) n ltac:(rewrite tleafs_S; lia)) as G.
+        rewrite tsize_S in *. rewrite tleafs_S. rewrite tsize_tleafs in *. lia. }
       pose proof (ncount_lt_tsize (S a) n ltac:(rewrite tleafs_S; lia)) as G.
       rewrite Z.gtb_ltb. destruct (Z.ltb_spec (ncount n) (tsize (S a))); [|lia].
       rewrite tsize_S.
